@@ -851,7 +851,9 @@ Record reg := Reg { g_idx : nat; g_dom : nat; g_en : option nat; g_step : Z; g_i
 Record dom := Dom { d_pos : bool; d_rst : bool; d_async : bool; d_prog : prog }.
 Record design := Design { ds_sigs : list shape; ds_doms : list dom; ds_comb : prog; ds_regs : list reg }.
 
-Inductive tstep := TSet (i : nat) (v : Z) | TClk (d : nat) (b : bool) | TRst (d : nat) (b : bool).
+Inductive tstep :=
+| TSet (i : nat) (v : Z) | TClk (d : nat) (b : bool) | TRst (d : nat) (b : bool)
+| TBoth (d : nat) (cb rb : bool).      (* ctx.set(Cat(clk, rst), ...): clock and reset of one domain in one command *)
 Record dstate := DS { s_env : list Z; s_clk : list bool; s_rst : list bool }.
 
 Fixpoint set_nthb (i : nat) (v : bool) (l : list bool) : list bool :=
@@ -934,6 +936,19 @@ Definition dstep_run (f7 bf : bool) (D : design) (t : tstep) (st : dstate) (out 
           let env' := reset_regs d (ds_regs D) (s_env st) in
           (after_change bf D (s_env st) env' out, DS env' (s_clk st) rsts')
       else (Cont out, DS (s_env st) (s_clk st) rsts')
+  | TBoth d cb rb =>
+      let clks' := set_nthb d cb (s_clk st) in
+      let rsts' := set_nthb d rb (s_rst st) in
+      if is_edge (d_pos (dom_of D d)) (nth d (s_clk st) false) cb then
+        (* an active edge: the process sees the new level of the reset *)
+        let '(o, env') := proc_run bf D d rb (s_env st) out in (o, DS env' clks' rsts')
+      else if d_async (dom_of D d) && rb && negb (nth d (s_rst st) false) then
+        if f7 then
+          let '(o, env') := proc_run bf D d true (s_env st) out in (o, DS env' clks' rsts')
+        else
+          let env' := reset_regs d (ds_regs D) (s_env st) in
+          (after_change bf D (s_env st) env' out, DS env' clks' rsts')
+      else (Cont out, DS (s_env st) clks' rsts')
   end.
 
 Fixpoint run_dsteps (f7 bf : bool) (D : design) (steps : list tstep) (st : dstate) (idx : Z) (out : list Z) : outcome * Z :=
